@@ -69,6 +69,10 @@ class Executor:
         '''
         Largely passing through relevant assignments to the pool they belong to.
         '''
+        for command in list(suspensions) + list(assignments):
+            assert command.pool_id in range(self.num_pools), \
+                f"unknown pool_id {command.pool_id!r} (have {self.num_pools} pools)"
+
         results: List[ExecutionResult] = []
         for id_ in range(self.num_pools):
             pool_suspensions = [s for s in suspensions if s.pool_id == id_]
